@@ -19,7 +19,8 @@ Model of the code **as it is**:
 * A block of `Set/Remove` is abstract here: `MTree.setRoot` installs the working tree it produced
   (C03 models how); what is modelled exactly is everything that happens to that tree afterwards.
 * `SaveBranch` skips `persisted` nodes; in the model a node is persisted iff `node.version ≤
-  tree.version` (new nodes are created with `tree.version+1`, loaded ones have smaller versions).
+  persistedTo` (new nodes are created with `tree.version+1`, loaded ones have smaller versions;
+  `persistedTo = tree.version` except after an idempotent re-save, see `MTree.persistedTo`).
 * Writes of one `SaveVersion` / one `LoadVersionForOverwriting` go through `ndb.batch` and reach
   the DB in a single `Batch.Write`; all reads made meanwhile see the old DB.  The functions below
   therefore compute every read from the pre-state.
@@ -102,13 +103,15 @@ structure NDB where
   roots : List (Int × Bytes) := []
   deriving DecidableEq, Repr, Inhabited
 
+/-- The largest key satisfying `p` among the root records, 0 if none (all uses select keys `> 0`). -/
+def maxKey (p : Int → Bool) (l : List (Int × Bytes)) : Int :=
+  l.foldl (fun m e => if p e.1 ∧ m < e.1 then e.1 else m) 0
+
 /-- `ndb.getPreviousVersion(v)`: reverse iteration over `[r1, r<v>)`, first key; 0 if none. -/
-def NDB.prevVersion (db : NDB) (v : Int) : Int :=
-  db.roots.foldl (fun m e => if 1 ≤ e.1 ∧ e.1 < v ∧ m < e.1 then e.1 else m) 0
+def NDB.prevVersion (db : NDB) (v : Int) : Int := maxKey (fun x => decide (1 ≤ x) && decide (x < v)) db.roots
 
 /-- `getPreviousVersion(1<<63 - 1)`: the latest version on disk. -/
-def NDB.latestOnDisk (db : NDB) : Int :=
-  db.roots.foldl (fun m e => if 1 ≤ e.1 ∧ m < e.1 then e.1 else m) 0
+def NDB.latestOnDisk (db : NDB) : Int := maxKey (fun x => decide (1 ≤ x)) db.roots
 
 /-- `SaveBranch`: post-order, skipping persisted nodes, `batch.Set(n<hash>, writeBytes)`. -/
 def saveBranch (H : Bytes → Bytes) (cur : Int) : Tree → List (Bytes × Bytes) → List (Bytes × Bytes)
@@ -154,6 +157,10 @@ structure MTree where
   lastSaved : Option Tree := none
   versions : List Int := []
   ndbLatest : Int := 0
+  /-- Nodes of the in-memory tree with `version ≤ persistedTo` carry `persisted = true`.  Equal to
+  `version` except after the idempotent branch of `SaveVersion`, which leaves the nodes created by
+  the re-executed block un-persisted in memory (their bytes are on disk already). -/
+  persistedTo : Int := 0
   db : NDB := {}
   deriving DecidableEq, Repr, Inhabited
 
@@ -166,9 +173,10 @@ def MTree.setRoot (t : MTree) (r : Option Tree) : MTree := { t with root := r }
 /-- `ndb.getLatestVersion()` (reads the disk only while the cache is 0). -/
 def MTree.latest (t : MTree) : Int := if t.ndbLatest = 0 then t.db.latestOnDisk else t.ndbLatest
 
-/-- `tree.orphans` at `SaveVersion` time. -/
-def orphansOf (old new : Option Tree) : List Tree :=
-  ((subtreesOpt old).filter fun s => !(subtreesOpt new).contains s).eraseDups
+/-- `tree.orphans` at `SaveVersion` time: the *persisted* nodes of the last saved tree that are gone
+from the working tree (`addOrphans` skips nodes that were never persisted). -/
+def orphansOf (persistedTo : Int) (old new : Option Tree) : List Tree :=
+  (subtreesOpt old).filter fun s => decide (s.version ≤ persistedTo) && !(subtreesOpt new).contains s
 
 /-- `MutableTree.SaveVersion`.  `none` = error return (`iavl.Store.Commit` panics on it) or the
 `saveOrphan` panic.  Result: new state, hash, version. -/
@@ -185,16 +193,17 @@ def saveVersion (H : Bytes → Bytes) (t : MTree) : Option (MTree × Bytes × In
     if version ≠ latest + 1 then none
     else
       let toV := t.db.prevVersion version
-      let orph := orphansOf t.lastSaved t.root
+      let orph := orphansOf t.persistedTo t.lastSaved t.root
       if orph.any (fun o => decide (o.version > toV)) then none
       else
         let nodes := match t.root with
           | none => t.db.nodes
-          | some r => saveBranch H t.version r t.db.nodes
+          | some r => saveBranch H t.persistedTo r t.db.nodes
         let orphans := orph.foldl (fun m o => aput (toV, o.version, hashTree H o) (hashTree H o) m) t.db.orphans
         let roots := aput version (hashOpt H t.root) t.db.roots
         some ({ version := version, root := t.root, lastSaved := t.root, versions := version :: t.versions,
                 ndbLatest := if latest < version then version else latest,
+                persistedTo := version,
                 db := ⟨nodes, orphans, roots⟩ }, hashOpt H t.root, version)
 
 /-- `MutableTree.LoadVersion(target)`: fills `versions` with **every** root on disk; `target == 0`
@@ -203,12 +212,12 @@ def loadVersion (t : MTree) (target : Int) : Option (MTree × Int) :=
   if t.db.roots = [] then some (t, 0)
   else
     let versions := t.db.roots.foldl (fun vs e => if vs.contains e.1 then vs else e.1 :: vs) t.versions
-    let latest := t.db.roots.foldl (fun m e => if m < e.1 ∧ (target = 0 ∨ e.1 ≤ target) then e.1 else m) 0
+    let latest := maxKey (fun x => decide (target = 0) || decide (x ≤ target)) t.db.roots
     if ¬ (target = 0 ∨ latest = target) then none
     else
       match loadRoot t.db.nodes ((aget latest t.db.roots).getD []) with
       | none => none
-      | some root => some ({ t with version := latest, root := root, lastSaved := root, versions := versions }, latest)
+      | some root => some ({ t with version := latest, root := root, lastSaved := root, versions := versions, persistedTo := latest }, latest)
 
 /-- `deleteNodesFrom(version, hash)`: the hashes whose node keys are deleted — every node reachable
 from `hash` (read from the unmodified DB) whose stored version is `≥ version`. -/
@@ -261,6 +270,15 @@ def loadVersionForOverwriting (t : MTree) (target : Int) : Option (MTree × Int)
 
 /-- `iavl.LoadStore(db, id)` with `lazyLoading = false`: a fresh tree, `LoadVersion(id.Version)`. -/
 def loadStore (db : NDB) (version : Int) : Option MTree := (loadVersion (MTree.new db) version).map (·.1)
+
+/-- A store's life between restarts: for each block install the working tree it produced and
+`SaveVersion`.  `none` if a save fails. -/
+def runSaves (H : Bytes → Bytes) : MTree → List (Option Tree) → Option MTree
+  | t, [] => some t
+  | t, r :: rs =>
+    match saveVersion H (t.setRoot r) with
+    | none => none
+    | some (t', _, _) => runSaves H t' rs
 
 /-- `MutableTree.GetImmutable(version)` / `LazyLoadVersion`: the saved tree of a version. -/
 def getImmutable (db : NDB) (version : Int) : Option (Option Tree) :=
